@@ -73,7 +73,7 @@ Definition get_line_pos_of_char_pos (tf : tfile) (char_pos : N) (source : bool) 
 Definition range := (N * N)%type.
 Record marker := { m_src : range; m_tpl : range }.
 
-(** Repaired code (fix d49d4e5): the *source* offset against the source newline table. *)
+(** Repaired code (fix 9a5420e): the *source* offset against the source newline table. *)
 Definition source_position (tf : tfile) (m : marker) : N * N :=
   get_line_pos_of_char_pos tf (fst (m_src m)) true.
 (** Before the repair: the *templated* offset against the source newline table. *)
